@@ -534,6 +534,7 @@ func (prop c10) Execute(sc *sim.Scenario) *sim.Outcome {
 			continue
 		}
 		sig = sig.Str(st.Op).Int(len(st.I)).Int(len(st.R)).Int(len(st.F))
+		out.Probes["op/"+st.Op]++
 		for _, id := range st.In {
 			sig = sig.Int(id)
 		}
